@@ -48,6 +48,8 @@ func typecheckFunctionsAndProcesses(processes []*Process, assumedFreeNames []Nam
 
 	assignTypesToProcessProviders(processes)
 
+	simFaultPoint("typecheck:start")
+
 	// Start with some preliminary check on the labelled types
 	if err := preliminaryTypesDefinitionsChecks(globalEnv); err != nil {
 		reported = true
@@ -71,6 +73,8 @@ func typecheckFunctionsAndProcesses(processes []*Process, assumedFreeNames []Nam
 
 	globalEnv.log(LOGRULEDETAILS, "Preliminary checks ok")
 
+	simFaultPoint("typecheck:after-preliminary")
+
 	// At this point, we can assume that all names and functions have a type and such type is well formed
 
 	// So, we can initiate the more heavyweight typechecking on the function's and processes' bodies
@@ -84,6 +88,8 @@ func typecheckFunctionsAndProcesses(processes []*Process, assumedFreeNames []Nam
 
 	globalEnv.log(LOGRULEDETAILS, "Function declarations typecheck ok")
 
+	simFaultPoint("typecheck:after-functions")
+
 	// Typecheck process definitions
 	if err := typecheckProcesses(processes, assumedFreeNames, globalEnv); err != nil {
 		reported = true
@@ -92,6 +98,8 @@ func typecheckFunctionsAndProcesses(processes []*Process, assumedFreeNames []Nam
 	}
 
 	globalEnv.log(LOGRULEDETAILS, "Process declarations typecheck ok")
+
+	simFaultPoint("typecheck:end")
 }
 
 // Sets a common type to all provider names
